@@ -90,6 +90,14 @@ inductive Ev where
   | extra (tag : Nat)                -- code after a second/third yield ran (only generators outside the documented form)
 deriving DecidableEq, Repr
 
+/-- what the user generator RETURNS when it finishes (`return <object>` after its last section): nothing (falls off the end, bare
+    `return`, `return None`), a falsy object, a truthy object.  The value travels in `StopIteration.value`; the wrapper's cleanup is
+    `try: next(iterator) except StopIteration: pass` (the translator accepts no other handler body), so it is dropped — it is NOT an
+    `__exit__`-like verdict on the block's exception.  An async generator cannot return a value. -/
+inductive Ret where
+  | none | falsy | truthy
+deriving DecidableEq, Repr
+
 /-- observable behaviour of a user generator: `setup; yield value; cleanup; [yield value; extra]*`.
     `yields` = how many yield points it reaches if nothing raises. -/
 structure UserGen where
@@ -98,6 +106,7 @@ structure UserGen where
   yields : Nat
   cleanupExc : Option Exc
   value : Nat
+  returns : Ret := .none
 deriving DecidableEq, Repr
 
 inductive GRes where            -- result of next()/throw() on a generator
